@@ -73,8 +73,9 @@ func (s *Service) fetchExecutionConfig(ctx context.Context) {
 
 	// Start with our current execution configuration.
 	s.executionConfigMu.RLock()
-	executionConfig := s.executionConfig
+	currentExecutionConfig := s.executionConfig
 	s.executionConfigMu.RUnlock()
+	executionConfig := currentExecutionConfig
 
 	if s.configURL == "" {
 		s.log.Trace().Msg("No config URL; using default configuration with fallback")
@@ -86,12 +87,12 @@ func (s *Service) fetchExecutionConfig(ctx context.Context) {
 			succeeded = false
 			s.log.Error().Str("config_url", s.configURL).Err(err).Msg("Failed to obtain execution configuration")
 			// Restore current execution configuration.
-			executionConfig = s.executionConfig
+			executionConfig = currentExecutionConfig
 		} else if executionConfig == nil {
 			succeeded = false
 			s.log.Error().Str("config_url", s.configURL).Msg("Obtained nil execution configuration")
 			// Restore current execution configuration.
-			executionConfig = s.executionConfig
+			executionConfig = currentExecutionConfig
 		}
 		monitorExecutionConfig(time.Since(started), succeeded)
 	}
